@@ -686,7 +686,7 @@ def p_ctl_new(eng, st, name, args, site, depth, call):
     return one(st, ("call", name, vals(eng, st, args)))
 
 
-_CTL_READS = ("get", "is_admin", "query_admin", "query_hooks", "query_claims", "query_hook")
+_CTL_READS = ("get", "is_admin", "assert_admin", "query_admin", "query_hooks", "query_claims", "query_hook")
 
 
 @prim_re(r"^cw_controllers::(Admin|Hooks|Claims)::")
